@@ -145,6 +145,13 @@ func checkC06(w *World, r *Report) {
 	r.Rule("R06.3", "package-level state of the xpath packages is never written after initialisation, or every write happens with the exclusive lock mu held and every read with mu held (read or write mode)", 3)
 	r.guard("R06.3", func() { c06Globals(w, r) })
 
+	r.Rule("R06.6", "every lock taken in the xpath packages is released on every path of the function that takes it (deferred or explicit), and nothing is unlocked that was not locked", 3)
+	r.guard("R06.6", func() {
+		if lockPairing(w, r, "R06.6", []string{"xpath", "xpath/grammars/expr", "xpath/grammars/leafref", "xpath/grammars/path_eval", "xpath/xutils"}, "a path that returns with the function-table mutex held blocks every later compilation and validating run") == 0 {
+			panic(undecided{"no function takes a lock"})
+		}
+	})
+
 	r.Rule("R06.4", "generated parsers are re-entrant: each <p>Parse allocates its parser state per call", 3)
 	r.guard("R06.4", func() { c06Reentrant(w, r) })
 
